@@ -4268,3 +4268,67 @@ func (v *iview) frameOfCall(call ssa.CallInstruction) *iframe {
 	}
 	return nil
 }
+
+// ---------------------------------------------------------------------------
+// T-BITSETSIZE: the FixedBitSet constructor allocates exactly the bytes its
+// accessors address for n bits. The accessors index byte i/d (d read from
+// Get/Set); the constructor's make length L(n), obtained by evaluating its
+// integer skeleton for n = 0..130, must be 0 for n = 0 and (n-1)/d+1 otherwise
+// (the last addressable bit n-1 lies in the last byte, and no byte is added
+// beyond it: an extra byte shifts every following field on the wire).
+
+func (c *Ctx) FixedBitSetSize() []core.Ob {
+	o := core.Ob{Rule: "T-BITSETSIZE", Key: "net/packet.NewFixedBitSet", Armed: true, Status: core.OK,
+		Want: "NewFixedBitSet(n) allocates ceil(n/8) bytes: the bytes Get/Set address for bits 0..n-1, and not one more"}
+	ctor := c.Fn("net/packet.NewFixedBitSet")
+	get := c.Fn("net/packet.(FixedBitSet).Get")
+	if ctor == nil || get == nil {
+		o.Status, o.Got = core.Violated, "NewFixedBitSet or FixedBitSet.Get not found"
+		return []core.Ob{o}
+	}
+	o.Pos, o.Func = c.P.Pos(ctor.Pos()), core.FnName(ctor)
+	d := int64(0)
+	for _, b := range get.Blocks {
+		for _, in := range b.Instrs {
+			if ia, ok := in.(*ssa.IndexAddr); ok {
+				if q, ok := stripConv(ia.Index).(*ssa.BinOp); ok && q.Op == token.QUO {
+					if k, ok := constIntVal(q.Y); ok && k > 0 {
+						d = k
+					}
+				} else if q, ok := stripConv(ia.Index).(*ssa.BinOp); ok && q.Op == token.SHR {
+					if k, ok := constIntVal(q.Y); ok && k > 0 && k < 8 {
+						d = 1 << uint(k)
+					}
+				}
+			}
+		}
+	}
+	if d == 0 {
+		o.Status, o.Got = core.Violated, "the byte index computation (index / d) of FixedBitSet.Get was not recognised"
+		return []core.Ob{o}
+	}
+	sizes := c.TLG().sizesOf(ctor)
+	for n := int64(0); n <= 130; n++ {
+		ev := &skelEval{c: c, sizes: sizes}
+		var got *big.Int
+		ev.onInstr = func(in ssa.Instruction, get func(ssa.Value) *big.Int) {
+			if ms, ok := in.(*ssa.MakeSlice); ok {
+				got = get(ms.Len)
+			}
+		}
+		_, _ = ev.run(ctor, []*big.Int{bi(n)})
+		want := int64(0)
+		if n > 0 {
+			want = (n-1)/d + 1
+		}
+		if got == nil || !got.IsInt64() || got.Int64() != want {
+			gs := "unknown"
+			if got != nil {
+				gs = got.String()
+			}
+			o.Status, o.Got = core.Violated, fmt.Sprintf("NewFixedBitSet(%d) allocates %s bytes, the accessors address %d (bit i lives in byte i/%d)", n, gs, want, d)
+			break
+		}
+	}
+	return []core.Ob{o}
+}
